@@ -268,7 +268,8 @@ class CGLS(object):
             
     def solve(self):
         # initial state
-        x = self.x0.copy()
+        x = np.asanyarray(self.x0)
+        x = x.astype(np.result_type(x.dtype, float)) # iterate in (at least) double precision whatever the dtype of x0
         if self.explicitA:
             r = self.b - (self.A @ x)
             s = (self.A.T @ r) - self.shift*x
@@ -377,7 +378,8 @@ class PCGLS:
 
     def solve(self):
         # initial state
-        x = self._x0.copy()
+        x = np.asanyarray(self._x0)
+        x = x.astype(np.result_type(x.dtype, float)) # iterate in (at least) double precision whatever the dtype of x0
         r = self._b - self._apply_A(x, 1)
         s = self._apply_Pinv(self._apply_A(r, 2) - self._shift*x, 2)
         p = s.copy()
